@@ -45,7 +45,7 @@ func init() {
 		Header:         "From ZenoV Require Import Lib.Harness Lib.Hex Queue.HopsPath Queue.Batcher Queue.QueueHarness.\n",
 		CaseType:       "hcase",
 		Footer:         "\nDefinition DIFF := Eval vm_compute in hdiffs cases.\nPrint DIFF.\nDefinition MON := Eval vm_compute in hmons cases.\nPrint MON.\n",
-		Rule:           "one case = one run of the real hq source (consumer, producer, finisher, websocket goroutines, real gocrawlhq client) in its own process against a fake crawl HQ that answers the k-th add / delete / get request as a generated fault sequence says (O ok, 5 = 503, R = connection reset, S = stall until the client's 5 s timeout, L = accepted but the answer is lost; runs of 1..2 failures everywhere, and in ~30% of the cases an outage: the same add, delete or get request fails 3..6 times in a row before it succeeds): batch size 1..5, workers 1..25 (1 or 2 senders), 1..14 outlinks (texts from a pool incl. unparsable, non-ASCII, duplicates; hops 0..300) produced back to back with optional waits that force timer-triggered flushes, accepted URLs handed out again on get, seeds finished (0..2 children) or held by a plan; in ~22% of the cases the outlinks are what the REAL preprocess/postprocess return for a seed tree with a scripted archiver (page behind 0..3 redirects, links in the page's HTML and/or in the JSON document of a child asset), in ~35% finished seeds pass through the REAL finisher workers, in ~16% the consumer runs with --hq-batch-concurrency 2..4 (batch size >= concurrency) and single sub-fetches of a round fail while their siblings are served, in ~12% pause.Pause()/Resume() is called while a finisher worker is stuck handing a seed to the source during a DELETE outage; distinct by input; non-trivial when at least one request failed and was retried AND at least one batch left on the timer (smaller than the batch size)",
+		Rule:           "one case = one run of the real hq source (consumer, producer, finisher, websocket goroutines, real gocrawlhq client) in its own process against a fake crawl HQ that answers the k-th add / delete / get request as a generated fault sequence says (O ok, 5 = 503, R = connection reset, S = stall until the client's 5 s timeout, L = accepted but the answer is lost; runs of 1..2 failures everywhere, and in ~30% of the cases an outage: the same add, delete or get request fails 3..6 times in a row before it succeeds): batch size 1..5, workers 1..25 (1 or 2 senders), 1..14 outlinks (texts from a pool incl. unparsable, non-ASCII, duplicates; hops 0..300) produced back to back with optional waits that force timer-triggered flushes, accepted URLs handed out again on get, seeds finished (0..2 children) or held by a plan; in ~22% of the cases the outlinks are what the REAL preprocess/postprocess return for a seed tree with a scripted archiver (page behind 0..3 redirects, links in the page's HTML and/or in the JSON document of a child asset), in ~35% finished seeds pass through the REAL finisher workers, in ~16% the consumer runs with --hq-batch-concurrency 2..4 (batch size >= concurrency) and single sub-fetches of a round fail while their siblings are served, in ~6% (more in thorough) the finisher's batch channel is backed up by a DELETE outage longer than the 5 s flush ticker while a partial batch of acks is pending, in ~12% pause.Pause()/Resume() is called while a finisher worker is stuck handing a seed to the source during a DELETE outage; distinct by input; non-trivial when at least one request failed and was retried AND at least one batch left on the timer (smaller than the batch size)",
 		Gen:            genHQFlow,
 		Exec:           execHQFlow,
 		Shrink:         shrinkHQFlow,
@@ -369,6 +369,30 @@ func genHQFlow(r *Rng, i int, tier string) string {
 		if fin != "H" && r.Chance(40) {
 			extra += " rf=1"
 		}
+	case k < 72 || (tier == "thorough" && k < 80):
+		// backed-up source and a partial batch at the flush tick: finisher batch size w = 2..3, one
+		// sender; the DELETE of the first batch fails for more than a ticker period (attempts at 0, 1, 3,
+		// 7 s) while 3 full batches (sender, dispatcher, channel) plus 1..w-1 more acks arrive: when the
+		// 5 s ticker fires the receiver holds a partial batch and the batch channel is full
+		workers = 2 + r.Intn(2)
+		n := 3*workers + 1 + r.Intn(workers-1)
+		bsize = []int{1, n}[r.Intn(2)]
+		items, steps = nil, nil
+		for j := 0; j < n; j++ {
+			items = append(items, fmt.Sprintf("%x,%x,%d", fmt.Sprintf("http://bk.test/%d", j), pickVia(r, false), pickHops(r)))
+			steps = append(steps, fmt.Sprintf("P%d", j))
+		}
+		consume, fin = true, []string{"0", "1", "20"}[r.Intn(3)]
+		addf, getf = "O", ""
+		var run strings.Builder
+		for j := 0; j < 3+r.Intn(2); j++ {
+			run.WriteByte("555RRL"[r.Intn(6)])
+		}
+		delf = run.String() + "O"
+		extra = " bk=1"
+		if r.Chance(40) {
+			extra += " rf=1"
+		}
 	}
 	c := 0
 	if consume {
@@ -392,7 +416,7 @@ func shrinkHQFlow(in string) []string {
 		}
 		base := fmt.Sprintf("b=%s w=%s c=%s fin=%s addf=%s delf=%s getf=%s items=%s steps=%s", kv["b"], kv["w"], kv["c"], kv["fin"], kv["addf"], kv["delf"], kv["getf"],
 			strings.Join(it, ";"), strings.Join(steps, ","))
-		for _, k := range []string{"pp", "ph", "rf", "pz", "gc"} {
+		for _, k := range []string{"pp", "ph", "rf", "pz", "gc", "bk"} {
 			if kv[k] != "" {
 				base += " " + k + "=" + kv[k]
 			}
@@ -581,6 +605,22 @@ func execHQFlow(in string) Result {
 		tags[fmt.Sprintf("getconc:%d", gc)] = true
 		if getFails > 0 {
 			tags["getconc:sub-fetch-failed"] = true
+		}
+	}
+	if h.kv["bk"] == "1" {
+		// the shape only counts when it was observed: the first three deletes failed, and the acks do
+		// not fill a whole number of batches
+		nd, firstFails := 0, 0
+		for _, e := range res.Events {
+			if e.K == "D" {
+				if nd < 3 && e.Res != "O" {
+					firstFails++
+				}
+				nd++
+			}
+		}
+		if firstFails == 3 && workers > 0 && len(h.items)%workers != 0 {
+			tags["backlog:partial-batch-at-tick"] = true
 		}
 	}
 	if res.PauseDuringOutage {
